@@ -1695,7 +1695,7 @@ func segment.Find
                             && (ret0 == nil || fresh(region(ret0)))
 
 func Open
-    flags only_flock only_struct noframe
+    flags only_flock only_struct only_version only_order noframe
     assigns all
     // a writer needs the directory for itself; readers share it with readers only
     ensures[flock_writer]   err == nil && !opts.Readonly ==> !old(lkExcl)[lockFile(dir)] && old(lkShared)[lockFile(dir)] == 0
@@ -1712,6 +1712,14 @@ func Open
     ensures[flock_ro_nowrite] opts.Readonly ==> (forall p string :: fsContent[p] == old(fsContent)[p])
     // INV is established: segments ordered by base, only the last one is the head, a writable log owns it
     ensures[struct_wf]      err == nil ==> typeis(result, *log) && structWf(result.(*log)) && result.(*log).opts.Readonly == opts.Readonly
+    // C05/C17 order of the start-up steps of a writable open: the head is checked or recovered first, then every
+    // segment found is migrated (each one, once, to the configured versions), and only then is any file opened
+    assert[order_recover_first]  (opts.Recover || opts.Check) ==> gDone["headcheck"] == old(gDone)["headcheck"] + 1 at call (Segment).Migrate 1
+    assert[order_recover_open]   (opts.Recover || opts.Check) ==> gDone["headcheck"] == old(gDone)["headcheck"] + 1 at call openWriter 2
+    assert[order_recover_head]   arg0 == segments[len(segments)-1] && arg1 == params at call (Segment).Recover 1
+    assert[version_eager_args]   arg0 == segments[rangeindex+1] && arg1 == opts.Version.NewSegmentsVersion.messages
+                                     && arg2 == opts.Version.NewSegmentsVersion.index && arg3 == params at call (Segment).Migrate 1
+    assert[version_eager_all]    opts.Version.EagerVersionMigrate ==> gDone["migrate"] == old(gDone)["migrate"] + len(segments) at call openWriter 2
     loop 1
       invariant[struct_idx]  -1 <= rangeindex && rangeindex < len(segments) && len(l.readers) == rangeindex + 1 && l.opts == opts && l.lock == lock && l != nil
       invariant[struct_rdrs] forall k :: 0 <= k && k <= rangeindex ==> l.readers[k] != nil && allocated(l.readers[k]) && l.readers[k].segment.Offset == segments[k].Offset
@@ -1720,11 +1728,16 @@ func Open
                                  && (forall p string :: lkExcl[p] == old(lkExcl)[p]) && (forall p string :: p != lockFile(dir) ==> lkShared[p] == old(lkShared)[p])
     loop 2
       invariant[struct_idx]  len(l.readers) == 0 && l.opts == opts && l.lock == lock && l != nil && l.writer == nil
+      invariant[version_count]  -1 <= rangeindex && rangeindex < len(segments) && gDone["migrate"] == old(gDone)["migrate"] + rangeindex + 1
+                                    && gDone["headcheck"] == old(gDone)["headcheck"] + ite(opts.Recover || opts.Check, 1, 0)
+      invariant[version_before_open] l.writer == nil && len(l.readers) == 0
       invariant[flock]       lkMode[lock] == 2 && lkPath[lock] == lockFile(dir) && lkExcl[lockFile(dir)] && !old(lkExcl)[lockFile(dir)]
                                  && (forall p string :: p != lockFile(dir) ==> lkExcl[p] == old(lkExcl)[p]) && (forall p string :: lkShared[p] == old(lkShared)[p])
     loop 3
       invariant[struct_idx]  -1 <= rangeindex && rangeindex < len(segments) - 1 && len(l.readers) == rangeindex + 1 && l.opts == opts && l.lock == lock && l != nil
       invariant[struct_rdrs] forall k :: 0 <= k && k <= rangeindex ==> l.readers[k] != nil && allocated(l.readers[k]) && l.readers[k].segment.Offset == segments[k].Offset && !l.readers[k].head
+      invariant[version_count]  gDone["migrate"] == old(gDone)["migrate"] + ite(opts.Version.EagerVersionMigrate, len(segments), 0)
+                                    && gDone["headcheck"] == old(gDone)["headcheck"] + ite(opts.Recover || opts.Check, 1, 0)
       invariant[flock]       lkMode[lock] == 2 && lkPath[lock] == lockFile(dir) && lkExcl[lockFile(dir)] && !old(lkExcl)[lockFile(dir)]
                                  && (forall p string :: p != lockFile(dir) ==> lkExcl[p] == old(lkExcl)[p]) && (forall p string :: lkShared[p] == old(lkShared)[p])
 
@@ -1783,6 +1796,8 @@ func (*log).Close
     // C19: Close releases the directory lock
     ensures[flock_released] ret0 == nil ==> lkMode[l.lock] == 0
     ensures[flock_others]   forall g *flock.Flock :: g != l.lock ==> lkMode[g] == old(lkMode)[g]
+    // the lock lives on the inode of the lock file: Close creates and removes no file (other handles keep locking the same one)
+    ensures[flock_keepfile] forall p string :: fsExists[p] == old(fsExists[p])
     requires[sync_ok] !l.opts.Readonly ==> wOK(l.writer)
     assigns all
     ensures[sync_clean] !l.opts.Readonly && ret0 == nil ==> !fsDirty[old(l.writer.messages.Path)] && !fsDirty[old(fPath[l.writer.items.f])]
